@@ -215,6 +215,23 @@ impl<'tcx> Cx<'tcx> {
                             let pb = &proms[p];
                             let mut inner = Vec::new();
                             let mut agg: Option<J> = None;
+                            let mut pints: Vec<J> = Vec::new();
+                            {
+                                let te = TypingEnv::post_analysis(self.tcx, body_did);
+                                for bb in pb.basic_blocks.iter() {
+                                    if let Some(t) = &bb.terminator {
+                                        if let TerminatorKind::Call { args, .. } = &t.kind {
+                                            for a in args.iter() {
+                                                if let Operand::Constant(c) = &a.node {
+                                                    if let Some(sc) = c.const_.try_eval_scalar_int(self.tcx, te) {
+                                                        pints.push(s(format!("{}", sc.to_bits(sc.size()))));
+                                                    }
+                                                }
+                                            }
+                                        }
+                                    }
+                                }
+                            }
                             for bb in pb.basic_blocks.iter() {
                                 for st in &bb.statements {
                                     if let StatementKind::Assign(b) = &st.kind {
@@ -274,6 +291,7 @@ impl<'tcx> Cx<'tcx> {
                                 }
                             }
                             fields.push(("promoted_of", J::Arr(inner)));
+                            fields.push(("promoted_ints", J::Arr(pints)));
                             if let Some(a) = agg {
                                 fields.push(("promoted_agg", a));
                             }
